@@ -12,7 +12,8 @@ CHECKS = {
             ("R-TMP", "r_tmp", "run", ("quick", "thorough")),
             ("R-ALIAS.mem", "r_alias", "run_mem", ("quick", "thorough")),
             ("R-ALLOC.size", "r_alloc", "run", ("quick", "thorough")),
-            ("R-EXTENT.tmp", "r_extent", "run", ("quick", "thorough"))],
+            ("R-EXTENT.tmp", "r_extent", "run", ("quick", "thorough")),
+            ("R-NORM", "r_norm", "run", ("quick", "thorough"))],
     "C05": [("R-ALIAS", "r_alias", "run", ("quick", "thorough")),
             ("R-CONSTSRC.ir", "r_constsrc", "run", ("quick", "thorough"))],
     "C06": [("R-TABLES.c06", "r_tables", "run_c06", ("quick", "thorough")),
@@ -65,6 +66,7 @@ RULES = {
     "R-SAMESRC": ("r_samesrc", "run"),
     "R-EXTENT.tmp": ("r_extent", "run"),
     "R-ALLOC.io": ("r_alloc", "run_io"),
+    "R-NORM": ("r_norm", "run"),
 }
 
 EXPLANATION = {
@@ -201,6 +203,8 @@ ASSUMPTIONS = {
     "R-STREAM": ["libc failure conventions: fwrite/fread return the item count, fputc/putc/fputs return EOF, fprintf a negative value; "
                  "library stream functions return 0 on failure",
                  "getc-based parsers are not covered by this rule (EOF handling is value-dependent)"],
+    "R-NORM": ["the classification of mpn routines into 'loses at most one high limb' and 'can cancel any number' assumes normalised inputs and exact "
+               "operand sizes (the library's calling convention); callees outside the table and sites without a preceding mpn writer are undecided"],
     "R-ALLOC.io": ["R-ALLOC.size / .pair restricted to the I/O units and printf/ scanf/ (same assumptions)"],
     "R-TMP.io": ["R-TMP restricted to the units that perform stream / raw / string I/O"],
     "R-CONSTSRC.ir": ["pointer derivation in the IR is a closure over GEP / cast / phi / select / returned pointers after SROA; pointers loaded "
